@@ -958,7 +958,7 @@ func (e *FnEnc) escapeSites(v ssa.Value, seen map[interface{}]bool, asHolder boo
 			case *ssa.MakeClosure:
 				// a function literal handed only to the modelled sort functions runs during that call and is not
 				// retained: capturing the variable is not an escape
-				if !closureOnlySorts(u) {
+				if !closureOnlySorts(u) && (holder || !readOnlyCapture(u, x)) {
 					sites = append(sites, u)
 				}
 			case ssa.Instruction:
@@ -971,6 +971,41 @@ func (e *FnEnc) escapeSites(v ssa.Value, seen map[interface{}]bool, asHolder boo
 }
 
 type holderKey struct{ v ssa.Value }
+
+// readOnlyCapture: the function literal only reads the captured variable x (every use of the corresponding free
+// variable is a load): whoever gets hold of the literal cannot change the variable.
+func readOnlyCapture(mc *ssa.MakeClosure, x ssa.Value) bool {
+	fn, ok := mc.Fn.(*ssa.Function)
+	if !ok {
+		return false
+	}
+	found := false
+	for k, b := range mc.Bindings {
+		if b != x {
+			continue
+		}
+		found = true
+		if k >= len(fn.FreeVars) {
+			return false
+		}
+		refs := fn.FreeVars[k].Referrers()
+		if refs == nil {
+			return false
+		}
+		for _, r := range *refs {
+			switch u := r.(type) {
+			case *ssa.DebugRef:
+			case *ssa.UnOp:
+				if u.Op != token.MUL {
+					return false
+				}
+			default:
+				return false
+			}
+		}
+	}
+	return found
+}
 
 func closureOnlySorts(mc *ssa.MakeClosure) bool {
 	refs := mc.Referrers()
